@@ -1209,8 +1209,25 @@ func funcFlowRows(repo, rel, recv, name string) []string {
 
 // fileFlows emits the statement lists of EVERY function and method declared in a file
 func fileFlows(repo, leanName, rel string) {
-	f := parse(filepath.Join(repo, rel))
+	// parsed WITHOUT comments: documentation attached to declarations and fields must not show up in the text
+	f, err := parser.ParseFile(fset, filepath.Join(repo, rel), nil, 0)
+	if err != nil {
+		fmt.Fprintf(os.Stderr, "gofacts: %v\n", err)
+		os.Exit(2)
+	}
 	var defs []string
+	// package-level declarations (types, constants, variables; imports apart), in source order
+	var decls []string
+	for _, d := range f.Decls {
+		gd, ok := d.(*ast.GenDecl)
+		if !ok || gd.Tok == token.IMPORT {
+			continue
+		}
+		decls = append(decls, fmt.Sprintf("(\"decl\", %s, [])", q(srcText(gd))))
+	}
+	if len(decls) > 0 {
+		defs = append(defs, fmt.Sprintf("  (\"<declarations>\", [\n    %s])", strings.Join(decls, ",\n    ")))
+	}
 	for _, d := range f.Decls {
 		fd, ok := d.(*ast.FuncDecl)
 		if !ok || fd.Body == nil {
@@ -1548,4 +1565,11 @@ var flowFiles = [][2]string{
 	{"objIter", "git/obj_iter.go"}, {"batchObjIter", "git/batch_obj_iter.go"}, {"refIter", "git/ref_iter.go"},
 	{"grouper", "sizes/grouper.go"}, {"explicitRoot", "sizes/explicit_root.go"}, {"objResolver", "git/obj_resolver.go"},
 	{"gitBin", "git/git_bin.go"}, {"oid", "git/oid.go"},
+	// the files that also have a translator or a more specific statement list: pinned as a whole too,
+	// so that functions and declarations outside the translated part cannot change unnoticed
+	{"graph", "sizes/graph.go"}, {"sizesFile", "sizes/sizes.go"}, {"countsFile", "counts/counts.go"}, {"meterFile", "meter/meter.go"},
+	{"refFilter", "git/ref_filter.go"}, {"refGroup", "internal/refopts/ref_group.go"}, {"footnotes", "sizes/footnotes.go"},
+	{"gitFile", "git/git.go"}, {"tree", "git/tree.go"}, {"commit", "git/commit.go"}, {"tag", "git/tag.go"},
+	{"objHeadIter", "git/obj_head_iter.go"}, {"batchHeader", "git/batch_header.go"}, {"reference", "git/reference.go"},
+	{"isattyEnabled", "isatty/isatty_enabled.go"}, {"isattyDisabled", "isatty/isatty_disabled.go"},
 }
